@@ -576,6 +576,17 @@ def rw_extract_match(text: str, scrutinee: str, sig: str, var: str) -> str:
   return '%s {\n    match %s {%s}\n  }\n' % (sig, var, arms)
 
 
+def rw_extract_block(text: str, start: str, end: str, sig: str) -> str:
+  """R18b: like R18 for a run of statements: the function's text is replaced by  SIG { STATEMENTS }  where STATEMENTS is the text from the first
+  match of regex `start` up to and including the first match of regex `end` after it, copied unchanged; everything else of the function is dropped."""
+  m = re.search(start, text)
+  if not m: raise Undecided('R18b: start of the block not found')
+  e = re.search(end, text[m.start():])
+  if not e: raise Undecided('R18b: end of the block not found')
+  block = text[m.start():m.start() + e.end()]
+  return '%s {\n      %s\n  }\n' % (sig, block)
+
+
 def rw_mut_self(text: str) -> str:
   """R1: `fn f(mut self, ...) { B }` -> `fn f(self, ...) { let mut this = self; B[self:=this] }`"""
   a = fn_anatomy(text)
@@ -1131,6 +1142,7 @@ def build_unit(name: str, variant: Optional[str] = None, canary: bool = False) -
         elif rule == 'R13r': new = rw_for_range(new)
         elif rule == 'R13f': new = rw_for_each_index(new)
         elif rule == 'R13c': new = rw_rev_take_zip_map(new)
+        elif rule == 'R18b': new = rw_extract_block(new, args['start'], args['end'], args['sig'])
         elif rule == 'R18': new = rw_extract_match(new, args['scrutinee'], args['sig'], args['var'])
         elif rule == 'R17': new = rw_inline_scope(new)
         elif rule == 'R4n': new = rw_next_if_pred(new, args.get('fns', []), args.get('vars', []))
